@@ -1226,6 +1226,10 @@ func genGoMiniAll() []*leanFile {
 		[]string{cl + "compact_cleaner.go"},
 		map[string][]string{cl + "compact_cleaner.go": {"compactCleaner.cleanSegment"}},
 		clConsts)})
+	out = append(out, &leanFile{name: "GoCompactAux", raw: genGoMini("GoCompactAux",
+		[]string{cl + "compact_cleaner.go"},
+		map[string][]string{cl + "compact_cleaner.go": {"keyOffset.set", "keyOffset.get", "cleanupEmptySegment"}},
+		clConsts)})
 	out = append(out, &leanFile{name: "GoHW", raw: genGoMini("GoHW",
 		[]string{cl + "commitlog.go"},
 		map[string][]string{cl + "commitlog.go": {"commitLog.waitForHW", "commitLog.SetHighWatermark", "commitLog.OverrideHighWatermark",
